@@ -102,6 +102,11 @@ CHECKS = {
         "note": "Trusted: TLC, the engines of C01-C03/C07/C09. The mean-field part is metamorphic (tau vs 0, 1e-9).",
         "technique": "TLA+ spec of time-derived quantities + TLC; spec->code replay at shifted time origins; user callables as trace hooks",
     },
+    "C20": {
+        "text": "ObjectGraph.tla models a correlations object with a public parameter (versions), the memo table of its 2D integrals (on the lattice points of eta_function), a bath built from it (shallow copy) and computations using the bath or re-using shared objects; TLC checks Freshness, Isolation and ReuseFresh over every history in the bound, shows that the two named deviations violate them, and emits every history. Each history is replayed on real PowerLawSD / Bath / Tempo objects; every answer is mapped to the parameter version it reflects (table from fresh objects) and compared with the spec; mismatches count as known findings only where the deviated specification predicts exactly the observed version (incl. 'mixture of versions'). Seven array-taking APIs are called with Fortran-ordered, strided and read-only arrays (identical results, arguments bit-for-bit unchanged) and every sequence of computations re-using shared system/bath/parameters/process-tensor/control objects must equal fresh objects.",
+        "note": "Trusted: TLC, version table from fresh objects (relative 1e-9), numpy layout constructors. Known findings: stale eta memo; bath copy closing over the original object.",
+        "technique": "TLA+ object/aliasing model + TLC over histories; spec->code replay with version decoding; layout and mutation enumeration per API",
+    },
 }
 for e in ENGINES:
     e["serves_properties"] = sorted(CHECKS)
